@@ -296,6 +296,34 @@ func craftedInputs() [][]byte {
 	out = append(out, bytes.Repeat([]byte{0x78}, 65536))
 	out = append(out, bytes.Repeat([]byte{'H', 'Z'}, 32768))
 	out = append(out, bytes.Repeat([]byte{0x79, 0x90}, 32768))
+	// a map cycle that passes through a pointer: a typed map with interface values stores a reference to
+	// itself; the same map is then the value of a field of a self-referential map type (index 168)
+	out = append(out, hspecHx("x7a M x14 com.example.AnyProps x01 a Q x91 Z C x05 HoldR x93 x01 t x01 m x01 n x60 N Q x91 x90"))
+	// n references to ONE untyped map from the VALUES of a typed map field / from the ELEMENTS of a list of
+	// typed maps (indexes 169, 170)
+	for shape := 0; shape < 2; shape++ {
+		b := []byte{0x7a, 'H'}
+		for i := 0; i < 9000; i++ {
+			b = append(b, cint(i%2000)...)
+			b = append(b, 0x91)
+		}
+		b = append(b, 'Z')
+		if shape == 0 {
+			b = append(b, hspecHx("C x08 MpOfMaps x92 x01 a x01 m x60 x01 x H")...)
+			for i := 0; len(b) < 61800; i++ {
+				b = append(b, cint(i%2000)...)
+				b = append(b, 0x51, 0x91)
+			}
+			b = append(b, 'Z')
+		} else {
+			b = append(b, hspecHx("C x08 SlOfMaps x92 x01 a x01 l x60 x01 x x57")...)
+			for len(b) < 51900 {
+				b = append(b, 0x51, 0x91)
+			}
+			b = append(b, 'Z')
+		}
+		out = append(out, b)
+	}
 	return out
 }
 
